@@ -21,7 +21,9 @@ Fixpoint pmtu_checks (pm : Z) (steps : list obs) : bool :=
   match steps with
   | [] => true
   | o :: rest =>
-      let pm' := if C01mtu.is_mtu_step o then fold_left Z.min (C01mtu.reported_mtus o) pm else pm in
+      (* RFC 1191: a path MTU below 68 does not exist; such a report (forged or broken) binds nobody *)
+      let pm' := if C01mtu.is_mtu_step o
+                 then fold_left Z.min (filter (fun m => 68 <=? m) (C01mtu.reported_mtus o)) pm else pm in
       let hdr := 40 + (if tsOk (o_st o) then 12 else 0) in
       forallb (fun f => let n := Z.of_nat (length (f_data f)) in (n =? 0) || (n + hdr <=? Z.max pm' (hdr + 1))) (o_frames o)
       && pmtu_checks pm' rest
